@@ -188,6 +188,16 @@ func (r *Ref) Execute() *Val {
 		rootName = r.Schema.Subscription.Name
 	}
 	root := r.Schema.Types[rootName]
+	// an executable directive on the operation definition (@oq on QUERY, @om on MUTATION)
+	// wraps the whole execution
+	if r.Op.Directives.ForName("oq") != nil || r.Op.Directives.ForName("om") != nil {
+		r.Calls = append(r.Calls, "$")
+		r.Positions = append(r.Positions, Position{Path: "$", Kind: "opdirective"})
+		if r.Plan.Get("$") == "error" {
+			r.addErr("", "resolver")
+			return Null
+		}
+	}
 	v, _ := r.selectionSet(root, "", r.Op.SelectionSet)
 	return v
 }
